@@ -138,8 +138,10 @@ struct SimAlloc
 #endif
     }
 
+    bool suspended = false; // the harness is preparing state (a very long fill): requests are neither counted nor failed
     bool should_fail(void *addr, size_t size)
     {
+        if (suspended) return false;
         uint64_t const idx = req_in_op++;
         ++req_total;
         bool f = false;
@@ -330,7 +332,7 @@ struct SimAlloc
         next_id = 1; cur_op = -1;
         fmode = F_NONE; fk = 0; req_in_op = req_total = fired_in_op = fired_total = real_failures = 0;
         err_cls.clear(); err_detail.clear(); last_fired_site.clear();
-        always_move = false; junk_fill = true; reuse_lifo = false; passthrough = false;
+        always_move = false; junk_fill = true; reuse_lifo = false; passthrough = false; suspended = false;
         classify = nullptr;
     }
     void raw_delete_final(std::map<uintptr_t, Block>::iterator it)
